@@ -392,8 +392,11 @@ pub fn binary_pair_law(run: &mut Run) {
             if k < 2 {
                 self.w[k]
             } else {
+                // (further draws: a scrambled sequence - a constant word could keep a redrawing sampler going for ever)
                 self.odd = true;
-                0x8000_0001
+                let mut z = (self.w[0] as u64 ^ ((self.w[1] as u64) << 32)).wrapping_add((k as u64).wrapping_mul(0x9e37_79b9_7f4a_7c15));
+                z = (z ^ (z >> 30)).wrapping_mul(0xbf58_476d_1ce4_e5b9);
+                (z >> 32) as u32
             }
         }
         fn next_u64(&mut self) -> u64 {
@@ -424,6 +427,7 @@ pub fn binary_pair_law(run: &mut Run) {
                 let sel = Tournament::binary();
                 for j1 in lo..hi {
                     let w1 = g1.word32(j1 as u32);
+                    mcx::watch::enter(Box::new(move |_| ("big/tournament/pair-law/hang".to_string(), format!("binary tournament on {n} individuals with first word {w1:#x}"), json!({"check":"C07","big":true,"pair_law":n}))));
                     for j2 in 0..n {
                         let mut rng = TwoWords { w: [w1, g2.word32(j2 as u32)], i: 0, odd: false };
                         let (a, b) = if subject {
@@ -446,6 +450,7 @@ pub fn binary_pair_law(run: &mut Run) {
                         }
                         counts[pair_index(a, b)].fetch_add(1, std::sync::atomic::Ordering::Relaxed);
                     }
+                    mcx::watch::leave();
                 }
                 None
             });
